@@ -785,7 +785,7 @@ impl Sim {
     }
 
     /// A connection the statement says must be reused by a request for origin `o` issued now.
-    pub(super) fn available_conn(&self, snap: &hooks::PoolSnapshot, o: u8, _h2: bool) -> Option<usize> {
+    pub fn available_conn(&self, snap: &hooks::PoolSnapshot, o: u8, _h2: bool) -> Option<usize> {
         let tok = self.token_of(snap, o)?;
         let ts = snap.tokens.iter().find(|t| t.token == tok)?;
         let t = self.cfg.idle_timeout.filter(|&t| t > 0).map(|t| Duration::from_millis(t * self.cfg.t_ms));
